@@ -7,7 +7,7 @@ that belong to C03.
 from harness import auction
 
 PROPS = {'C03'}
-KQ, KT = 6, 8
+KQ, KT = 7, 8
 
 
 def cases(tier):
